@@ -193,9 +193,11 @@ func vQuiesce() {
 	ctl.HPoint("quiesce")
 	// let uncontrolled (library) goroutines settle
 	for i := 0; i < 20; i++ {
+		vtime.Touch() // settling is not idleness: the clock stands still meanwhile
 		runtime.Gosched()
 		time.Sleep(500 * time.Microsecond)
 	}
+	vtime.Touch()
 }
 
 // vLive: with the sync shim the controller knows the library-started threads that are still alive
